@@ -8,6 +8,7 @@ import re
 import subprocess
 from concurrent.futures import ThreadPoolExecutor
 
+import vlib
 from vlib import Inconclusive, log, NCPU
 
 # which property a rejected event speaks for (refined by the state TLC reports, see classify())
@@ -205,3 +206,123 @@ def run_modes(ctx, prop, plan):
     ctx.notes["runs"] = total
     ctx.notes["runs_validated"] = total_ok
     return total_ok
+
+
+# ---------------------------------------------------------------------------------------------------------------
+# The repository's OWN tests as a trace corpus: nsqd's test binary is built with the hooks on, every listed test
+# runs in a process of its own with the raw event sink (VERIF_TRACE_FILE), the events of each nsqd instance are one
+# trace, and TLC checks it against NsqdAbs like a driver run.  The tests' own assertions are not what is judged
+# here (that is the suite's job); the point is that executions the suite already produces are held against every
+# clause of the specification at every step.  lib/repo_tests_nsqd.txt lists the tests that go through nsqd's
+# public interfaces (a few white-box tests call Channel methods with messages that were never published: those
+# are not behaviours of the system and are not listed, nor are two sampling tests whose traces are too long).
+def repo_tests(ctx, prop, lanes=3):
+    names = [l.strip() for l in open(os.path.join(vlib.VERIF, "lib", "repo_tests_nsqd.txt")) if l.strip()]
+    tb = os.path.join(ctx.scratch, "nsqd.test")
+    p = subprocess.run(["go", "test", "-tags", "verif", "-c", "-o", tb, "./nsqd"], cwd=vlib.REPO, env=ctx.goenv(),
+                       capture_output=True, text=True)
+    if p.returncode != 0:
+        raise Inconclusive("building nsqd's test binary with -tags verif failed:\n" + (p.stdout + p.stderr)[-2000:])
+    have = set(subprocess.run([tb, "-test.list", ".*"], capture_output=True, text=True, cwd=ctx.scratch).stdout.split())
+    names = [n for n in names if n in have]
+    h = ctx.harness("core")
+    outdir = os.path.join(ctx.scratch, "repotests")
+    os.makedirs(outdir, exist_ok=True)
+
+    def run_one(name, tag=""):
+        raw = os.path.join(outdir, "raw-%s%s.ndjson" % (name, tag))
+        wd = os.path.join(outdir, "wd-%s%s" % (name, tag))
+        os.makedirs(wd, exist_ok=True)
+        shutil_copy_testdata(wd)
+        try:
+            r = subprocess.run([tb, "-test.run", "^%s$" % name, "-test.count=1"], cwd=wd, capture_output=True, text=True,
+                               timeout=240, env=ctx.goenv({"VERIF_TRACE_FILE": raw}))
+            rc = r.returncode
+        except subprocess.TimeoutExpired:
+            rc = -1
+        tr = os.path.join(outdir, "trace-%s%s.ndjson" % (name, tag))
+        if rc == 0 and os.path.exists(raw):
+            subprocess.run([h, "rawconv", "--in", raw, "--out", tr], capture_output=True, text=True, cwd=ctx.scratch,
+                           env=ctx.goenv())
+        if os.path.exists(raw):
+            os.unlink(raw)
+        n = sum(1 for _ in open(tr)) if os.path.exists(tr) else 0
+        return {"scenario": "repository test %s" % name, "test": name, "rc": rc, "trace": tr if n >= 3 else "",
+                "events": n, "inconclusive": "" if rc == 0 else "the test itself did not pass (rc %s)" % rc}
+
+    def shutil_copy_testdata(wd):
+        # the TLS tests read ./test/certs relative to the package directory
+        src = os.path.join(vlib.REPO, "nsqd", "test")
+        dst = os.path.join(wd, "test")
+        if os.path.isdir(src) and not os.path.exists(dst):
+            import shutil
+            shutil.copytree(src, dst)
+
+    # tests that configure TLS listen on the fixed default HTTPS port: one lane for them, run one after the other
+    fixed = [n for n in names if re.search(r"TLS|HTTPS|Tls|Https", n)]
+    rest = [n for n in names if n not in fixed]
+    groups = [fixed] + [rest[i::lanes] for i in range(lanes)]
+    runs = []
+    with ThreadPoolExecutor(max_workers=len(groups)) as ex:
+        for rs in ex.map(lambda g: [run_one(n) for n in g], groups):
+            runs.extend(rs)
+    failed = [r["test"] for r in runs if r["rc"] != 0]
+    todo = [r for r in runs if r["trace"]]
+    ctx.notes["repo_tests"] = {"listed": len(names), "with_trace": len(todo), "tests_not_passing": failed[:20]}
+
+    def tlc_one(r):
+        res = ctx.tlc("NsqdAbsTrace", "NsqdAbsTrace.cfg", workers=1, timeout=900, jvm=["-Xss512m"],
+                      files={r["trace"]: "trace.ndjson"}, label="trace:repo-tests", private=True, record=False)
+        return r, res
+
+    def verdict(res):
+        if res.ok and "TRACE_OK" in res.out:
+            return "ok", ""
+        if res.crashed and not res.postcondition_false:
+            return "tlc-failed", res.out[-1500:]
+        m = re.search(r'<<\s*"TRACE_REJECTED".*?(?=\nError|\Z)', res.out, re.S)
+        return "rejected", (m.group(0)[:2500] if m else res.out[-2500:])
+
+    accepted = states = events = 0
+    with ThreadPoolExecutor(max_workers=max(2, NCPU // 2)) as ex:
+        results = list(ex.map(tlc_one, todo))
+    for r, res in results:
+        v, detail = verdict(res)
+        if v == "ok":
+            accepted += 1
+            states += res.distinct
+            events += r["events"]
+            continue
+        if v == "tlc-failed":
+            ctx.notes.setdefault("repo_tests_unjudged", []).append(r["test"])
+            continue
+        # a rejection must reproduce: the same test twice more, rejected again both times at an event of the same
+        # class -- a test's scheduling varies from run to run and one odd interleaving is not yet a verdict
+        ev, cls = classify(detail)
+        again = 0
+        for k in (1, 2):
+            r2 = run_one(r["test"], "-r%d" % k)
+            if not r2["trace"]:
+                continue
+            _, res2 = tlc_one(r2)
+            v2, d2 = verdict(res2)
+            if v2 == "rejected" and classify(d2)[1] == cls:
+                again += 1
+        if again < 2:
+            ctx.notes.setdefault("repo_tests_unreproduced", []).append({"test": r["test"], "event": ev, "class": cls})
+            continue
+        os.makedirs(ctx.replay_dir, exist_ok=True)
+        dst = os.path.join(ctx.replay_dir, "repotest-%s.ndjson" % r["test"])
+        import shutil
+        shutil.copy(r["trace"], dst)
+        msg = "%s: its recorded execution is not a behaviour of NsqdAbs at event %s (3 of 3 runs): %s" % (r["scenario"], ev, detail)
+        if cls == prop:
+            ctx.violation(msg, dst, key="repotest:%s:%s" % (r["test"], ev))
+        else:
+            print("OTHER-PROPERTY: %s breaks a clause of %s (event %s), not of %s" % (r["scenario"], cls, ev, prop), flush=True)
+    ctx.cov["traces_validated_against_impl"] += accepted
+    ctx.cov["states"] += states
+    ctx.cov["transitions"] += states
+    ctx.cov["evaluations"] += events
+    log("repo-tests: %d/%d traces of nsqd's own tests accepted by NsqdAbs (%d events)" % (accepted, len(todo), events))
+    return accepted
